@@ -2,5 +2,5 @@ SPECIFICATION ObsSpec
 CONSTANTS QCap = 10 MaxPend = 100000 MaxOps = 1000000
           NoInboundFilter = FALSE NoNullCheck = FALSE AnyoneOpens = FALSE RepIds = {}
           TrackHistory = TRUE FlowCache = "none" HostIps = {} HostPorts = {} SrcSet = {} DkSet = {}
-          StaleVerdict = "none" HopFollowsPeer = FALSE FlagChoices = {} SignedSrcs = {}
+          StaleVerdict = "none" HopFollowsPeer = FALSE VerdictMemo = "none" FlagChoices = {} SignedSrcs = {}
 INVARIANT ObsOK
